@@ -1005,11 +1005,11 @@ Qed.
 (* slice bounds within [-n, n] are normalised like Python's; None means 0 / n *)
 Definition py_bound (n : Z) (dflt : Z) (o : option Z) : Z :=
   match o with None => dflt | Some z => from_end n z end.
-Theorem key_get_slice n s e : 0 < n ->
+Theorem key_get_slice n s e st : 0 < n ->
   (forall z, s = Some z -> - n <= z <= n) -> (forall z, e = Some z -> - n <= z <= n) ->
-  key_get n (KSl s e) = Some (py_bound n 0 s, py_bound n n e).
+  key_get n (KSl s e st) = Some (py_bound n 0 s, py_bound n n e).
 Proof.
-  intros Hn Hs He. unfold key_get, sl_bounds, chk, py_bound, neg_norm, from_end.
+  intros Hn Hs He. unfold key_get, sl_bounds, step_accepted, chk, py_bound, neg_norm, from_end. cbn [negb].
   destruct s as [s|]; destruct e as [e|];
     try (specialize (Hs s eq_refl)); try (specialize (He e eq_refl)); bcases.
 Qed.
